@@ -19,7 +19,9 @@ TGTS = ["TPath", "TPathObj", "TStream", "TStr"]
 PARSERS = {"PMolli": "molli", "PMolliUpper": "MOLLI", "PUnknown": "gaussian"}
 
 
-def valid(verb, fmt, fsrc, otype, named, tgt, parser):
+def valid(verb, fmt, fsrc, otype, named, tgt, parser, dotted=False):
+    if dotted and tgt not in ("TPath", "TPathObj"):
+        return False          # the stem shape only exists for path sources / targets
     if verb in ("VLoad", "VLoadAll"):
         return tgt in ("TPath", "TPathObj")
     if verb in ("VLoads", "VLoadsAll"):
@@ -36,14 +38,14 @@ def valid(verb, fmt, fsrc, otype, named, tgt, parser):
 
 
 def all_cells():
-    for c in itertools.product(VERBS, FMTS, FSRC, OTYPES, [False, True], TGTS, PARSERS):
+    for c in itertools.product(VERBS, FMTS, FSRC, OTYPES, [False, True], TGTS, PARSERS, [False, True]):
         if valid(*c):
             yield c
 
 
 def cell_term(c):
-    verb, fmt, fsrc, otype, named, tgt, parser = c
-    return f"(mk_cell {verb} {fmt} {fsrc} {otype} {cq_bool(named)} {tgt} {parser})"
+    verb, fmt, fsrc, otype, named, tgt, parser, dotted = c
+    return f"(mk_cell {verb} {fmt} {fsrc} {otype} {cq_bool(named)} {tgt} {parser} {cq_bool(dotted)})"
 
 
 # ------------------------------------------------------------------ mocks (tie T)
@@ -55,8 +57,9 @@ class Sent:
 
 def observe_cell(ml, c, work):
     """Run one cell against recording mocks; return the Coq `action` term."""
-    verb, fmt, fsrc, otype, named, tgt, parser = c
+    verb, fmt, fsrc, otype, named, tgt, parser, dotted = c
     ext = FMTS[fmt]
+    stem = "in.put.v2" if dotted else "input"
     GIVEN_NAME = "given-name-7"
     log = []
 
@@ -75,7 +78,7 @@ def observe_cell(ml, c, work):
             return "NNone"
         return "NGiven" if kw["name"] == GIVEN_NAME else "NWrong"
 
-    path = os.path.join(work, "input." + (ext if fsrc == "FsSuffix" else "dat"))
+    path = os.path.join(work, stem + "." + (ext if fsrc == "FsSuffix" else "dat"))
     open(path, "w").write("mock file body\n")
     data = "mock string body " + ext
 
@@ -156,7 +159,7 @@ def observe_cell(ml, c, work):
                 res = fn(data, fmt_arg, otype=ot, **kw)
             elif verb == "VDump":
                 obj = MockObj() if otype == "OMol" else MockEnsObj()
-                opath = os.path.join(work, "out." + (ext if fsrc == "FsSuffix" else "dat"))
+                opath = os.path.join(work, stem.replace("in", "out") + "." + (ext if fsrc == "FsSuffix" else "dat"))
                 if os.path.exists(opath):
                     os.remove(opath)
                 if tgt == "TStream":
@@ -223,7 +226,7 @@ def gen_table(ctx):
 # ------------------------------------------------------------------ spec mirror (for the search) + oracle on real objects
 def py_spec(c):
     """Python mirror of Model/Dispatch.v `spec` -- used only to name mismatching cells."""
-    verb, fmt, fsrc, otype, named, tgt, parser = c
+    verb, fmt, fsrc, otype, named, tgt, parser, dotted = c
     nm = "NGiven" if named else "NNone"
     cls = {"OMol": "KMol", "OEns": "KEns", "OStructCls": "KStruct", "OEnsCls": "KEnsCls"}[otype]
     ens = otype in ("OEns", "OEnsCls")
@@ -269,8 +272,12 @@ def real_cases(ctx):
     from pathlib import Path
     F = ml.files
     work = ctx.sub("c09real")
-    single = {"xyz": F.dendrobine_xyz, "mol2": F.dendrobine_mol2}
-    multi = {"xyz": F.pentane_confs_xyz, "mol2": F.pentane_confs_mol2}
+    import shutil
+    single, multi = {}, {}
+    for fmt, a, b in (("xyz", F.dendrobine_xyz, F.pentane_confs_xyz), ("mol2", F.dendrobine_mol2, F.pentane_confs_mol2)):
+        # file names with a dotted stem: the format must come from the LAST suffix only
+        single[fmt] = Path(shutil.copy(a, os.path.join(work, f"dendrobine.v2.final.{fmt}")))
+        multi[fmt] = Path(shutil.copy(b, os.path.join(work, f"pentane.confs.{fmt}")))
     cases = []
     for fmt in ("xyz", "mol2"):
         for otn, cls in (("molecule", ml.Molecule), ("ensemble", ml.ConformerEnsemble), ("Structure", ml.Structure)):
@@ -319,7 +326,7 @@ def real_cases(ctx):
             cases.append((("dump-stream", fmt, oname), to_stream, (lambda d=direct: "PRE\n" + d()), "text"))
             for explicit in (True, False):
                 def to_path(obj=obj, fmt=fmt, explicit=explicit):
-                    p = os.path.join(work, f"o_{fmt}_{explicit}." + (fmt if not explicit else "out"))
+                    p = os.path.join(work, f"o.{fmt}.{explicit}." + (fmt if not explicit else "out"))
                     if os.path.exists(p): os.remove(p)
                     ml.dump(obj, p, fmt if explicit else None)
                     ml.dump(obj, p, fmt if explicit else None)     # default mode appends
